@@ -188,7 +188,7 @@ class RemoveTwoLanelets(Contract):
     target = LN + "remove_lanelet"
     case = "two removals in sequence"
     unroll = UNROLL
-    budget_s = 400
+    budget_s = 900
     describe = "after removing lanelets x and then y: no dangling reference; remaining lanelets keep all relations minus {x, y}"
 
     def build(self, F):
@@ -328,7 +328,7 @@ class CutOutByShapeAndTypes(Contract):
     target = LN + "create_from_lanelet_network"
     unroll = UNROLL
     describe = "cut-out by shape and excluded lanelet types: kept set is exactly {types disjoint and intersecting}; no dangling references; intersections restricted"
-    budget_s = 400
+    budget_s = 900
 
     def build(self, F):
         net, ids, la = template(F)
